@@ -9,14 +9,16 @@ import numlib as nl
 from props import common
 
 ID = "C14"
-MODULES = ["Series", "Ref", "Ctrl"]
+MODULES = ["Series", "Ref", "RefP", "Ctrl"]
 LEAN_TARGETS = ["Props.C14"]
 ANCHORS = ["cyecca/models/rdd2.py", "cyecca/models/rdd2_loglinear.py", "cyecca/models/bezier.py",
            "cyecca/models/mr_ref_traj.py", "cyecca/lie/group_so3.py"]
 MISSING = [
-    "orthonormality / alignment of the position-controller and SE_2(3) outer-loop set-points as theorems on the 288/1387-instruction "
-    "programs (norm/sqrt/branch structure): numeric search only; theorems cover mr_ref_traj's frame, Euler's equation, f_ref = mr_ref_traj, "
-    "and the Euler-to-quaternion helper",
+    "flatness references (f_ref, mr_ref_traj) in their degenerate branches (thrust below the 1e-6 clamp, thrust parallel to the heading): "
+    "recorded findings, theorems are for the main branch; f_ref = mr_ref_traj at the shipped constants, the yaw rate r and the angular "
+    "acceleration outputs, f_ref's quaternion, and input_auto_level: numeric search only",
+    "position controller / SE_2(3) outer loop: the body y axis is perpendicular to the heading on the main branch (theorem); in the "
+    "Gram-Schmidt fallback (thrust within 1e-3 rad of the heading) only approximately (search)",
 ]
 M1, G = 2.24, 9.8          # rdd2 constants
 MB, JB = 2.0, (0.0216666, 0.0216666, 0.04, 0.0)   # bezier constants
